@@ -190,6 +190,17 @@ func checkC02(c *Ctx, r *Report) {
 		}
 	}
 
+	// key provenance of the two comparisons (shared with C01)
+	{
+		found := map[string]*ssa.Function{}
+		for _, fn := range c.transcriptFuncs() {
+			if kind, _, shape := classifyTranscript(fn); kind != "" && shape == "" {
+				found[kind] = fn
+			}
+		}
+		checkKeyWiring(c, r, found)
+	}
+
 	// (2) handshake helpers
 	helpers := c.handshakeHelpers()
 	for _, k := range []string{"OpenSessionRsp", "RAKPMessage2", "RAKPMessage4"} {
